@@ -8,6 +8,7 @@
 package table
 
 import (
+	"sync"
 	"time"
 
 	"github.com/named-data/ndnd/fw/core"
@@ -21,7 +22,12 @@ var tableQueueSize int
 var deadNonceListLifetime time.Duration
 
 // csCapacity contains the default capacity of each forwarding thread's Content Store.
+// It is set by the management goroutine while the forwarding threads evict down to it:
+// go through SetCsCapacity and CsCapacity, which hold csCapacityLock.
 var csCapacity int
+
+// csCapacityLock guards csCapacity.
+var csCapacityLock sync.RWMutex
 
 // csAdmit determines whether contents will be admitted to the Content Store.
 var csAdmit bool
@@ -44,7 +50,7 @@ func Configure() {
 	tableQueueSize = core.GetConfig().Tables.QueueSize
 
 	// Content Store
-	csCapacity = int(core.GetConfig().Tables.ContentStore.Capacity)
+	SetCsCapacity(int(core.GetConfig().Tables.ContentStore.Capacity))
 	csAdmit = core.GetConfig().Tables.ContentStore.Admit
 	csServe = core.GetConfig().Tables.ContentStore.Serve
 	csReplacementPolicyName := core.GetConfig().Tables.ContentStore.ReplacementPolicy
@@ -76,11 +82,15 @@ func Configure() {
 
 // SetCsCapacity sets the CS capacity from management.
 func SetCsCapacity(capacity int) {
+	csCapacityLock.Lock()
+	defer csCapacityLock.Unlock()
 	csCapacity = capacity
 }
 
 // CsCapacity returns the CS capacity
 func CsCapacity() int {
+	csCapacityLock.RLock()
+	defer csCapacityLock.RUnlock()
 	return csCapacity
 }
 
